@@ -81,6 +81,10 @@ ROWS = {
    technique='property-based testing: generated request type x binding encoding x signing x receiver setting x mutation (field edits, near-miss destinations, IssueInstant edges, wrong type/root, garbled encodings, tree mutation scripts); conjunction oracle evaluated by independent readers on the raw document',
    text='Whenever an IdP or SP hands a request object to the application, the raw document must be of the expected type, carry ID/Version 2.0/IssueInstant within the window, a Destination that is absent or exactly an own endpoint for the service, and - if it carries a signature or the receiver wants signed requests - a valid enveloped signature of the request element under the issuer\'s metadata key; unmodified valid requests must be accepted.',
    note=TOOL_NOTE + '; frozen clock; SOAP-delivered signed third-party requests are not required to be accepted (re-serialisation, see C08 finding).'),
+ 'C20': dict(level='fault_enumeration', design='3/C20',
+   technique='exhaustive fault enumeration: fault mode x tool invocation site x invocation position x {valid, corrupted} document, injected by a wrapper around the real tool subprocess; differential oracle against ground truth of the document',
+   text='The entities run the tool as a real subprocess through a wrapper that follows a per-case fault plan (19 modes incl. signals, garbled / look-alike output, missing output, unstartable binary) at 12 sites and 3 positions: corrupted documents must never be accepted, valid ones must be rejected when every verification is faulted, failed decryption yields no identity, faulted signing / encryption raises or returns a document that really is protected.',
+   note=TOOL_NOTE + ' run as a real process; faults that print an exact OK line are outside the statement.'),
 }
 NOT_YET = {}
 def main():
